@@ -25,7 +25,7 @@ class _Ret(Exception):
 _UNK = object()
 CDS = ("es_resume_cd", "es_patience_cd", "rlr_resume_cd", "rlr_patience_cd")
 PARAMS = dict(early_stopping_patience=2, early_stopping_burnin=1, early_stopping_threshold=Fraction(1, 10),
-              reduce_lr_patience=2, reduce_lr_burnin=1, reduce_lr_cooldown=1, reduce_lr_threshold=Fraction(1, 10),
+              reduce_lr_patience=2, reduce_lr_burnin=1, reduce_lr_cooldown=3, reduce_lr_threshold=Fraction(1, 10),
               reduce_lr_factor=Fraction(1, 2), reduce_lr_log10_epsilon=-6, num_epochs=None)
 
 
